@@ -58,8 +58,20 @@ def draw_case(draw, closed=()):
     cur = t
     suffix = g.pick(["none", "none", "overwrite", "drop", "overwrite_then_select"])
     if nd["op"] == "extend":
-        suffix = g.pick(["none", "none", "none", "overwrite"])
-    if suffix != "none" and outs:
+        suffix = g.pick(["none", "none", "window2", "window2", "overwrite"])
+    if suffix == "window2":
+        # a second windowed extend right after the target, over the whole table or a shorter partition list:
+        # the target's values must still be per-partition (adjacent windows must not be merged into one window)
+        osch = b.schemas[t]
+        pb = nd["partition_by"]
+        pb2 = 1 if (len(pb) == 1 or g.boolean()) else pb[:-1]
+        free = [n for n in gen.S.POOLS["int"] if n not in osch.cols and n != "id"]
+        if free:
+            nxt = b.add({"op": "extend", "src": cur, "ops": [[g.pick(free), ["call", "_size", []]]], "partition_by": pb2})
+            cur = nxt if nxt is not None else cur
+        else:
+            suffix = "none"
+    if suffix not in ("none", "window2") and outs:
         if suffix in ("overwrite", "overwrite_then_select"):
             lits = {"int": 1, "float": 0.5, "str": "z", "bool": True}
             osch = b.schemas[t]
@@ -174,7 +186,7 @@ def check(case):
                     ),
                     info,
                 )
-            if case["suffix"] == "none":
+            if case["suffix"] in ("none", "window2"):
                 pb = list(tnd["partition_by"])
                 pidx = [icols.index(c) for c in pb]
                 parts = {}
@@ -192,9 +204,10 @@ def check(case):
                         arg = e[2][0][1] if e[2] else None
                         col_vals = [x[icols.index(arg)] for x in part] if arg is not None else []
                         vals[name] = ref.agg(fn, col_vals, len(part))
-                    expected.append([vals[c] if c in produced else r[icols.index(c)] for c in rcols])
-                # multiset match with acceptable sets
-                rest = list(rrows)
+                    expected.append([vals[c] if c in produced else r[icols.index(c)] for c in rcols if c in produced or c in icols])
+                # multiset match with acceptable sets (columns added by a later step are ignored)
+                keep = [j for j, c in enumerate(rcols) if c in produced or c in icols]
+                rest = [[r[j] for j in keep] for r in rrows]
                 for ex in expected:
                     hit = None
                     for k, got in enumerate(rest):
